@@ -753,8 +753,9 @@ class ODLEncoder(PVLEncoder):
         """
         for quant in self.quantities:
             if isinstance(value, quant.cls):
-                if isinstance(
-                    getattr(value, quant.value_prop), self.numeric_types
+                v = getattr(value, quant.value_prop)
+                if isinstance(v, self.numeric_types) and not isinstance(
+                    v, bool
                 ):
                     return True
 
@@ -916,9 +917,10 @@ class ODLEncoder(PVLEncoder):
         """
         for quant in self.quantities:
             if isinstance(value, quant.cls):
-                if isinstance(
-                    getattr(value, quant.value_prop),
-                    self.numeric_types
+                v = getattr(value, quant.value_prop)
+                # bool is an int to Python, but TRUE and FALSE are not numbers.
+                if isinstance(v, self.numeric_types) and not isinstance(
+                    v, bool
                 ):
                     return super().encode_value(value)
                 else:
